@@ -1,6 +1,6 @@
 """C07: the real pipeline's output parsed by docutils (stub directives for the Sphinx ones): no error-level message, and
 the doctree has the predicted shape (title, module directive, entries as top-level siblings, everything else nested)."""
-import random, time
+import random, re, time
 import docutils.frontend, docutils.nodes, docutils.parsers.rst, docutils.utils
 from docutils.parsers.rst import Directive, directives, roles
 
@@ -98,10 +98,34 @@ def user_directives(doc_lines):
 def norm_arg(s): return ' '.join(s.split())
 
 
-def check_page(rst, spec, mod='M'):
-    """returns None or a violation detail"""
+PUNCT_RUN = re.compile(r'^([!-/:-@\[-`{-~])\1{3,}$')
+
+
+def transition_values(spec):
+    """known finding K10: a default value that is a run of four or more equal punctuation characters is written as it stands into
+    a field body, where reST reads it as a transition (ERROR/3 "Unexpected section title or transition")"""
+    vals = set()
+    def rec(es):
+        for e in es:
+            if e.get('t') in ('var', 'opt') and isinstance(e.get('val'), str) and PUNCT_RUN.match(e['val'].strip()): vals.add(e['val'].strip())
+            for k in ('members', 'ctors', 'inner', 'body', 'sections'):
+                if isinstance(e.get(k), list) and e[k] and isinstance(e[k][0], dict): rec(e[k])
+    rec(spec)
+    return vals
+
+
+def check_page(rst, spec, mod='M', k10=None):
+    """returns None or a violation detail; error messages that are exactly known finding K10 are collected in `k10` and otherwise
+    ignored, so that everything else on such a page is still judged"""
     doc = parse(rst)
     msgs = [m for m in doc.findall(docutils.nodes.system_message) if m['level'] >= 3]
+    runs = transition_values(spec)
+    def is_k10(m):
+        ls = m.astext().split('\n')
+        return 'Unexpected section title or transition' in ls[0] and ls[-1].strip() in runs
+    if k10 is not None:
+        k10 += [m.astext()[:200] for m in msgs if is_k10(m)]
+        msgs = [m for m in msgs if not is_k10(m)]
     if msgs:
         return dict(kind='docutils reports an error-level message', message=msgs[0].astext()[:400])
     secs = [c for c in doc.children if isinstance(c, docutils.nodes.section)]
@@ -180,8 +204,11 @@ def c07_suite(seed, count, out, drv, budget_s=None):
                 out.disagreements.append(dict(rec, detail=dict(kind='output', model=mo.get('rst', mo), real=real.get('rst', real))))
             if 'rst' not in real:
                 out.violations.append(dict(rec, detail=dict(kind='well-formed module rejected', real=real), model_agrees='rst' not in mo)); continue
-            v = check_page(real['rst'], spec)
+            k10 = []
+            v = check_page(real['rst'], spec, k10=k10)
             if v: out.violations.append(dict(rec, detail=v, rst=real['rst'], model_agrees=mo.get('rst') == real['rst']))
+            elif k10: out.violations.append(dict(rec, tag='K10', detail=dict(kind='docutils reports an error-level message', message=k10[0]), rst=real['rst'],
+                                                 model_agrees=mo.get('rst') == real['rst']))
             done += 1
     out.suites.append(dict(name='docutils', pages=done))
 
